@@ -804,7 +804,10 @@ func c13Bootstrap(c *c13) (string, string) {
 	c13Guard(c, "go/ast walk over deploy/notary.go", func() any { return nil }, func() { srcCheck, srcFacts = c13SourceFacts(c.t) })
 	c.st.Extra["deploy/notary.go index expressions (go/ast)"] = srcFacts
 	c.st.Evaluations++
+	// Advisory source-shape tie (definitions named T*): the loop shapes of deploy/notary.go as go/ast sees
+	// them, against the model's variant. A refactoring may change the shape and keep the behaviour, so a
+	// non-empty T_src makes the check search deeper instead of failing (like the parameter ties).
 	defs += "(* index expressions of deploy/notary.go found by go/ast, against the model's variant *)\n" +
-		"Definition M_src := Eval vm_compute in failures_from 0 [" + srcCheck + "].\nPrint M_src.\n"
-	return defs, " ++ [" + srcCheck + "] ++ map (check_pcase " + c13Variant() + ") pcases"
+		"Definition T_src := Eval vm_compute in failures_from 0 [" + srcCheck + "].\nPrint T_src.\n"
+	return defs, " ++ map (check_pcase " + c13Variant() + ") pcases"
 }
